@@ -581,7 +581,19 @@ func (e *Exec) sliceOp(f *Frame, x *ssa.Slice) Value {
 		if s.C == nil {
 			e.goPanic("runtime error: invalid memory address or nil pointer dereference")
 		}
-		a := e.loadCell(s.C).(*ArrV)
+		a, isArr := e.loadCell(s.C).(*ArrV)
+		if !isArr {
+			// unsafe reinterpretation of a scalar as a byte array (little endian); a copy, not an alias
+			t, isT := e.loadCell(s.C).(*Term)
+			if !isT || t.W < 8 {
+				e.unsupported("slice of pointer to %T", s.C.V)
+			}
+			var bs []*Term
+			for k := 0; k < int(t.W)/8; k++ {
+				bs = append(bs, e.tf.Trunc(e.tf.Bin(OLshr, t, e.tf.Const(int(t.W), uint64(8*k))), 8))
+			}
+			a = e.newByteSlice(bs, len(bs)).Arr
+		}
 		arr, off, ln, cp = a, 0, len(a.Cells), len(a.Cells)
 	default:
 		e.unsupported("slice base %T", base)
